@@ -26,13 +26,13 @@ ASSUMPTIONS = [
     'an all-static history may raise (excluded by the statement)',
 ]
 OPTIONS = [(-1, -1)] + [(s, i) for s in range(3) for i in (s, -1)]
-EXH_LMAX = {'quick': 5, 'thorough': 6}
+EXH_LMAX = {'quick': 5, 'thorough': 7}
 SINGLE_LMAX = {'quick': 3, 'thorough': 4}
 CHUNK = 1500
-N_RANDOM = {'quick': 320, 'thorough': 8000}
+N_RANDOM = {'quick': 320, 'thorough': 40000}
 N_LONG = {'quick': 3, 'thorough': 16}
 N_MANY = {'quick': 6, 'thorough': 60}
-BUDGET_S = {'quick': 200, 'thorough': 2400}
+BUDGET_S = {'quick': 200, 'thorough': 3600}
 
 _mon = Monitor()
 
